@@ -75,3 +75,5 @@ Print Assumptions C07_array_form_agrees.
 Print Assumptions C07_powers_form_agrees.
 Print Assumptions C07_classes_agree.
 Print Assumptions C07_elementary_complete.
+From CPL Require Import gen.GenFuns_C07 GenProps.GenFunsEquivC07 GenProps.C07Src. (* source tie: gen/GenFuns_C07.v is regenerated from ca_functions.py on every run *)
+Theorem C07_source_tie : (forall bits : list Z, src_bits_to_int bits = Z.of_N (bits_to_int bits)) /\ (forall (num : N) (num_digits : nat), src_int_to_bits num (Z.of_nat num_digits) = int_to_bits num num_digits) /\ (forall (nb : list Z) (rule : rule_form) (sch : scheme) (pows : option (list Z)), src_binary_rule nb rule sch pows = binary_rule nb rule sch pows). Proof. exact C07_source_translation_agrees. Qed. Print Assumptions C07_source_tie.
